@@ -123,6 +123,21 @@ for _m, _dec, _short in (("and", "false", "false"), ("or", "true", "true")):
               f"lhs == Variable::Bool(!{_dec}) ==> r == eval_res(*rhs, {S0}) && {S9} == eval_st(*rhs, {S0})"),
          ])
 
+# ---------------------------------------------------------------- assignment plumbing -----
+ASSIGN = "src/instruction/bin_op/assign.rs"
+unit(id="assign.exec", src=ASSIGN, path=[("fn", "exec")], mod="assign",
+     requires=["lhs is Mut", "call_requires(function, (cell_content(lhs), rhs))"],
+     ensures=[
+         ("assign.exec.yields_operator_applied_to_content_at_update", ["C08"],
+          "call_ensures(function, (cell_content(lhs), rhs), r)"),
+     ])
+unit(id="assign.try_exec", src=ASSIGN, path=[("fn", "try_exec")], mod="assign",
+     requires=["lhs is Mut", "call_requires(function, (cell_content(lhs), rhs))"],
+     ensures=[
+         ("assign.try_exec.yields_operator_result_or_its_error", ["C08"],
+          "call_ensures(function, (cell_content(lhs), rhs), r)"),
+     ])
+
 # ---------------------------------------------------------------- BinOperation::exec ------
 BINOP = "src/instruction/bin_op.rs"
 L = f"eval_res(self.lhs, {S0})"
@@ -185,9 +200,13 @@ for _v, _m in _ASSIGN_FALL:
                  f"self.op is {_v} && {_both} ==> (match op_{_m}(cell_content({L}->Ok_0), {R}->Ok_0) {{ "
                  f"Ok(v) => r == {OKV}(v), Err(e) => r is Err }})"))
 unit(id="binop.exec", src=BINOP, path=[("impl", "Exec for BinOperation"), ("fn", "exec")],
-     impl="BinOperation", stubs=["and.exec", "or.exec"], fragments=["opspecs", "opstubs"],
+     impl="BinOperation", stubs=["and.exec", "or.exec", "assign.exec", "assign.try_exec"], fragments=["opspecs", "opstubs"],
      rewrites=[("|_, b| b", "|_a, b| b")],
-     requires=[f"(self.op is And || self.op is Or) && {L} is Ok ==> {L}->Ok_0 is Bool"],
+     requires=[f"(self.op is And || self.op is Or) && {L} is Ok ==> {L}->Ok_0 is Bool",
+               "(" + " || ".join(f"self.op is {v}" for v in ["Assign"] + [a for a, _m in
+                   [("AssignAdd", 0), ("AssignSubtract", 0), ("AssignMultiply", 0), ("AssignDivide", 0), ("AssignModulo", 0),
+                    ("AssignLShift", 0), ("AssignRShift", 0), ("AssignBitwiseAnd", 0), ("AssignBitwiseOr", 0),
+                    ("AssignXor", 0), ("AssignPow", 0)]]) + f") && {L} is Ok ==> {L}->Ok_0 is Mut"],
      ensures=_ens)
 
 # ---------------------------------------------------------------- UnaryOperation::exec ----
